@@ -1,7 +1,169 @@
 import Driver.Common
-namespace Driver.C04
-open Driver
+import Log4rsModel.Rolling.Spec
+/-
+C04 driver. Case kinds
 
-def handle : Handler := fun _ _ => badCase "unimplemented"
+  seq  <mode a|t> <pre: - | hex bytes> <ops>          ops  = `,`-joined: `r` (restart) | record
+  conc <mode a|t> <pre> <amplifier 0|1|2> <threads>   threads = `|`-joined, each a `,`-joined record list
+
+record = `b<id>:<n1>+<n2>+…`  scripted encoder: slices of these sizes (`b<id>:` = no slice at all),
+                              content = `genBytes id (n1+n2+…)` (deterministic, starts with the id)
+       | `t<id>:<string>`     text message (one slice, UTF-8 of the string)
+
+observation
+  seq : `,`-joined hex file contents, one per op (read by a second thread right after the op returned)
+  conc: <hex of the final file> `/` <`|`-joined per thread: `,`-joined ids of acknowledged records>
+-/
+namespace Driver.C04
+open Log4rs.Proto Log4rs.Rolling Driver
+
+def hex (b : Bytes) : String := Log4rs.Proto.encBytes b
+def recBytes (r : Rec) : Bytes := Log4rs.Rolling.encBytes r
+
+/-- byte `k` of the generated record `id` (mirrored in `harness/src/c04.rs::gen_byte`) -/
+def genByte (id k : Nat) : Nat :=
+  if k = 0 then 0x5B
+  else if k = 1 then id / 65536 % 256
+  else if k = 2 then id / 256 % 256
+  else if k = 3 then id % 256
+  else (id * 7 + k * 13 + k / 251) % 256
+
+def genBytes (id n : Nat) : Bytes := (List.range n).map (genByte id)
+
+/-- split `bs` into consecutive slices of the given sizes -/
+def chunksOf : List Nat → Bytes → List Bytes
+  | [], _ => []
+  | n :: ns, bs => bs.take n :: chunksOf ns (bs.drop n)
+
+/-- tail-recursive hex decoder (files of several MB) -/
+def decBytesBig (s : String) : Option Bytes :=
+  if s = "_" then some [] else
+  let rec go (cs : List Char) (acc : List Nat) : Option Bytes :=
+    match cs with
+    | [] => some acc.reverse
+    | [_] => none
+    | a :: b :: rest =>
+      match hexDigit? a, hexDigit? b with
+      | some x, some y => go rest ((x * 16 + y) :: acc)
+      | _, _ => none
+  go s.toList []
+
+structure RecSpec where
+  id : Nat
+  chunks : Rec
+  text : Bool
+  deriving Repr
+
+def utf8Of (cs : List Char) : Bytes := (String.ofList cs).toUTF8.toList.map UInt8.toNat
+
+def decRec (s : String) : Option RecSpec :=
+  match splitOnChar ':' s with
+  | [hd, body] =>
+    match hd.toList with
+    | 'b' :: ds =>
+      match (String.ofList ds).toNat? with
+      | none => none
+      | some id =>
+        if body = "" then some { id, chunks := [], text := false } else
+        match mapM? decNat (splitOnChar '+' body) with
+        | none => none
+        | some sizes => some { id, chunks := chunksOf sizes (genBytes id sizes.sum), text := false }
+    | 't' :: ds =>
+      match (String.ofList ds).toNat?, decStr body with
+      | some id, some cs => some { id, chunks := [utf8Of cs], text := true }
+      | _, _ => none
+    | _ => none
+  | _ => none
+
+def decMode (s : String) : Option OpenMode :=
+  if s = "a" then some .append else if s = "t" then some .truncate else none
+
+def decOp (s : String) : Option FileAppender.Op :=
+  if s = "r" then some .restart else (decRec s).map (fun r => .append r.chunks)
+
+/-- which branches of the BufWriter rule a history exercises -/
+def chunkTags (w : BufFile) : List Bytes → List String
+  | [] => []
+  | c :: cs =>
+    let spare := CAP - w.buf.length
+    let t :=
+      (if c.isEmpty then ["empty-slice"] else []) ++
+      (if c.length ≥ CAP then ["write-through"] else []) ++
+      (if c.length = CAP then ["exactly-cap"] else []) ++
+      (if c.length = spare ∧ c.length < CAP ∧ ¬ c.isEmpty then ["fills-buffer"] else []) ++
+      (if c.length > spare ∧ ¬ w.buf.isEmpty then ["spill"] else [])
+    t ++ chunkTags (w.writeAll c) cs
+
+def opTags (m : OpenMode) (w : BufFile) : List FileAppender.Op → List String
+  | [] => []
+  | .append r :: ops =>
+    (if r.isEmpty then ["no-slice"] else if (recBytes r).isEmpty then ["empty-record"] else []) ++
+    (if r.length > 1 then ["multi-chunk"] else []) ++ chunkTags w r ++
+    opTags m (FileAppender.applyOp m w (.append r)) ops
+  | .restart :: ops => "restart" :: opTags m (FileAppender.applyOp m w .restart) ops
+
+def dedup (xs : List String) : List String := xs.foldl (fun acc x => if acc.contains x then acc else acc ++ [x]) []
+
+def firstDiff : Nat → List String → List String → Option Nat
+  | _, [], [] => none
+  | k, a :: as, b :: bs => if a = b then firstDiff (k + 1) as bs else some k
+  | k, _, _ => some k
+
+def handleSeq (mS preS opsS : String) (obs : List String) : Answer :=
+  match decMode mS, decOpt decBytesBig preS, mapM? decOp (decList ',' opsS), obs with
+  | some m, some pre, some ops, [implObs] =>
+    let w0 := FileAppender.build m pre
+    let model := encList "," ((FileAppender.trace m w0 ops).map hex)
+    let expect := (Spec.expectedTrace m pre ops).map hex
+    let got := decList ',' implObs
+    let modeName := if m = .append then "append" else "truncate"
+    let spec := match firstDiff 0 expect got with
+      | none => "ok"
+      | some k =>
+        let kind := match ops[k]? with | some .restart => "restart" | some (.append _) => "append" | none => "arity"
+        "FAIL:file after op " ++ toString k ++ " is not initial ++ whole records;sig=C04/seq-" ++ modeName ++ "-" ++ kind
+    let tags := dedup ([modeName, if pre.isSome then "pre-existing" else "fresh"] ++ opTags m w0 ops)
+    { model, spec, tags := if ops.isEmpty then "trivial" :: tags else "seq" :: tags }
+  | _, _, _, _ => badCase "seq"
+
+def handleConc (mS preS ampS thS : String) (obs : List String) : Answer :=
+  let thr := (decList '|' thS).map (fun t => mapM? decRec (decList ',' t))
+  match decMode mS, decOpt decBytesBig preS, decNat ampS, mapM? id thr, obs with
+  | some m, some pre, some amp, some threads, [implObs] =>
+    let (fileS, acksS) := match splitOnChar '/' implObs with
+      | [a, b] => (a, b)
+      | _ => ("", "")
+    match decBytesBig fileS, mapM? (fun t => mapM? decNat (decList ',' t)) (decList '|' acksS) with
+    | some file, some acks =>
+      if acks.length ≠ threads.length then badCase "acks arity" else
+      let initial := openContent m pre
+      -- the records each thread had acknowledged, in that thread's order
+      let acked : List (List Bytes) := (threads.zip acks).map fun (t, ids) =>
+        (t.filter (fun r => ids.contains r.id)).map (fun r => recBytes r.chunks)
+      let wellAcked := (threads.zip acks).all fun (t, ids) => (t.map (·.id)).take ids.length == ids
+      let ok := wellAcked && Spec.isMergeOfWhole initial acked file
+      -- any outcome the lock machine admits (theorem C04_schedule_serial: exactly the merges) is the
+      -- model's observation; otherwise the serial schedule thread 0, thread 1, … is shown
+      let serial := initial ++ (threads.flatMap (fun t => t.flatMap (fun r => recBytes r.chunks)))
+      let allAcks := encList "|" (threads.map (fun t => encList "," (t.map (fun r => toString r.id))))
+      let model := if ok then fileS ++ "/" ++ acksS else hex serial ++ "/" ++ allAcks
+      let modeName := if m = .append then "append" else "truncate"
+      let total := (threads.map List.length).sum
+      let spec := if ok then "ok" else
+        "FAIL:final file is not initial ++ an order-preserving merge of whole acknowledged records;sig=C04/conc-" ++ modeName
+      let big := threads.any (fun t => t.any (fun r => (recBytes r.chunks).length > CAP))
+      let multi := threads.any (fun t => t.any (fun r => r.chunks.length > 1))
+      let tags := ["conc", modeName, "threads-" ++ toString threads.length, "amp-" ++ toString amp] ++
+        (if big then ["record>cap"] else []) ++ (if multi then ["multi-chunk"] else []) ++
+        (if pre.isSome then ["pre-existing"] else [])
+      { model, spec, tags := if total = 0 then "trivial" :: tags else tags }
+    | _, _ => badCase "conc obs"
+  | _, _, _, _, _ => badCase "conc"
+
+def handle : Handler := fun cas obs =>
+  match cas with
+  | ["seq", m, pre, ops] => handleSeq m pre ops obs
+  | ["conc", m, pre, amp, ths] => handleConc m pre amp ths obs
+  | _ => badCase "arity"
 
 end Driver.C04
